@@ -47,6 +47,38 @@ func runSeq(rep *explore.Report, prop, tier string) {
 			c.Run()
 		}
 	}
+	// large tables, sparsely occupied: the full alphabet is out of reach at 9 and 10 seats, so only a
+	// few seats are used (every operation on them, Next in between) - chosen to reach the highest seat
+	// ids, the wrap-around from the last seat to seat 0 and long runs of empty seats
+	sparse := []struct {
+		n    int
+		only []int
+	}{{9, []int{0, 4, 8}}, {9, []int{7, 8}}, {9, []int{6, 7, 8}}, {10, []int{8, 9}}, {10, []int{1, 8, 9}}}
+	if tier == "thorough" {
+		for a := 0; a < 8; a++ {
+			for b := a + 1; b < 8; b++ {
+				sparse = append(sparse, struct {
+					n    int
+					only []int
+				}{9, []int{a, b, 8}})
+			}
+		}
+		sparse = append(sparse, struct {
+			n    int
+			only []int
+		}{9, []int{0, 3, 7, 8}}, struct {
+			n    int
+			only []int
+		}{10, []int{0, 5, 8, 9}}, struct {
+			n    int
+			only []int
+		}{12, []int{3, 10, 11}})
+	}
+	for _, sp := range sparse {
+		c := &Check{Property: prop, Rep: rep, N: sp.n, DevBound: 0, MaxState: 6000000, Only: sp.only}
+		c.Run()
+	}
+	rep.Set("sparse_large_tables", fmt.Sprintf("%d explorations of 9-, 10- (thorough: 12-) seat tables where only 2-4 chosen seats are ever used (every operation on them + Next)", len(sparse)))
 	rep.Set("rand_and_map_order_deviation_bound", "every answer sequence up to 3 seats, <=2 non-default answers per Join(-1) at 4 seats, <=1 from 5 seats (one deviation already reaches every seat Join(-1) can pick: the chosen key moved to the front of the map order)")
 	rep.Sample(map[string]any{"seats": 3, "history": []string{"Join(0)", "Seat(0)", "Join(2)", "Seat(2)", "Next", "Reserve(0)", "Join(1)", "Seat(1)", "Reserve(2)", "Next"}})
 	rep.Set("replay_mode", "tables of 2-4 seats are explored by replaying every history on one fresh seat manager (no state reconstruction); the key adds whether Dealer()/SmallBlind()/BigBlind() still are the live seat records")
